@@ -299,7 +299,16 @@ def run_case(kind, p):
     for pipeline in p["pipelines"]:
         try:
             runner = impl.run_fast if pipeline == "fast" else impl.run_full
-            outs = runner(frame, pattern, peaks, b=p["b"])
+            kw_ = {}
+            if pipeline == "fast" and p.get("buf_layout"):
+                # caller-supplied crop buffers that are a window of a larger scratch array / a transposed stack: shape
+                # (n, 2c, 2c) and float dtype as documented, just not contiguous in memory
+                nb_ = int(p["b"])
+                if p["buf_layout"] == "window":
+                    kw_["crop_bufs"] = np.zeros((nb_ + 1, 2 * c + 3, 2 * c + 5), dtype=np.float32)[:nb_, 1:2 * c + 1, 2:2 * c + 2]
+                else:
+                    kw_["crop_bufs"] = np.zeros((2 * c, nb_, 2 * c), dtype=np.float32).transpose(1, 0, 2)
+            outs = runner(frame, pattern, peaks, b=p["b"], **kw_)
         except Exception as e:
             msgs.append(f"{pipeline}: raised {type(e).__name__}: {e}")
             continue
@@ -320,6 +329,7 @@ def gen_case(rng, k):
     return {"seed": int(rng.integers(1 << 30)), "pattern": pat, "shape": shape,
             "frame_kind": ("poisson", "gauss", "disks", "hot")[k % 4], "peaks": peaks.tolist(),
             "b": int(rng.integers(1, n + 2)), "pipelines": ["fast", "full"],
+            "buf_layout": [None, "window", None, "transposed"][(k // 3) % 4],
             "pedestal": (0.0, 0.0, 2.0 ** 24 + 2, 0.0, -3e9, 2.0 ** 25, 1e6, float(2 ** int(rng.integers(24, 31))))[(k // 4) % 8]
             if k % 4 != 3 else 0.0}
 
